@@ -679,7 +679,7 @@ theorem step_stack {cl : CodeLaws ops} (ll : LiveLaws cl) {s r : St H} {K : List
   | mov =>
     dsimp only at hs0 ⊢
     cases st <;> simp only [checkOp, Bool.and_eq_true] at chk <;> first | exact absurd chk Bool.false_ne_true | skip
-    obtain ⟨c1, _⟩ := chk
+    obtain ⟨⟨_, c1⟩, _⟩ := chk
     obtain ⟨⟨v, s2⟩, hlo, hs0⟩ := bind_inv hs0
     obtain ⟨s3, hso, hs0⟩ := bind_inv hs0
     cases hs0
@@ -694,7 +694,7 @@ theorem step_stack {cl : CodeLaws ops} (ll : LiveLaws cl) {s r : St H} {K : List
   | movImm =>
     dsimp only at hs0 ⊢
     cases st <;> simp only [checkOp, Bool.and_eq_true] at chk <;> first | exact absurd chk Bool.false_ne_true | skip
-    obtain ⟨c1, _⟩ := chk
+    obtain ⟨⟨_, c1⟩, _⟩ := chk
     obtain ⟨⟨v, s2⟩, hro, hs0⟩ := bind_inv hs0
     obtain ⟨s3, hso, hs0⟩ := bind_inv hs0
     cases hs0
